@@ -59,10 +59,56 @@ func (m *Machine) global(g *ssa.Global) *Value {
 	if p, ok := m.globals[g]; ok {
 		return p
 	}
+	m.lazyInit(g.Pkg)
+	if p, ok := m.globals[g]; ok {
+		return p
+	}
 	p := new(Value)
 	*p = m.zero(deref(g.Type()))
 	m.globals[g] = p
 	return p
+}
+
+// lazyInit runs the package-level initialisers of a package of the code under
+// test (module github.com/free5gc/chf, logger excluded) the first time one
+// of its package-level variables is touched on a path, so that tables and
+// defaults declared as initialised variables hold their real values.
+func (m *Machine) lazyInit(p *ssa.Package) {
+	if p == nil || p.Pkg == nil {
+		return
+	}
+	path := p.Pkg.Path()
+	if !strings.HasPrefix(path, "github.com/free5gc/chf/") || strings.HasSuffix(path, "/internal/logger") {
+		return
+	}
+	if m.inited == nil {
+		m.inited = map[*ssa.Package]bool{}
+	}
+	if m.inited[p] {
+		return
+	}
+	m.inited[p] = true
+	if p.Func("init") == nil {
+		return
+	}
+	saved := m.env["initOnly"]
+	depth := m.depth
+	defer func() {
+		m.depth = depth
+		if saved != nil {
+			m.env["initOnly"] = saved
+		} else {
+			delete(m.env, "initOnly")
+		}
+		if r := recover(); r != nil {
+			if a, ok := r.(pathAbort); ok && a.kind == abUnsupported {
+				m.noteAssumption("package initialisers of " + path + " could not be executed completely (" + a.msg + "): the remaining package variables keep their zero values")
+				return
+			}
+			panic(r)
+		}
+	}()
+	m.callInit(p)
 }
 
 func deref(t types.Type) types.Type {
@@ -175,6 +221,10 @@ func (m *Machine) callInit(p *ssa.Package) {
 	init := p.Func("init")
 	fr := &frame{m: m, fn: init, env: map[ssa.Value]Value{}, visits: map[ssa.Instruction]int{}}
 	fr.block = init.Blocks[0]
+	if m.inited == nil {
+		m.inited = map[*ssa.Package]bool{}
+	}
+	m.inited[p] = true
 	m.env["initOnly"] = p
 	defer delete(m.env, "initOnly")
 	for fr.block != nil {
